@@ -262,29 +262,31 @@ Section Main.
   Variable parse : bytes -> option uparts.
   Variable conn_scheme : bytes.
   Variable cfg : ccfg.
+  Variable app : app_handlers.
   Hypothesis Hscheme : mem_byte c_colon conn_scheme = false.
-  Hypothesis Hext : handlers_external cfg.
+  Hypothesis Hext : app_external app.
+  Hypothesis Hign : app_ignores_origin app.
   Notation ipo := is_part_of_origin.
   Notation verdict_of := (req_verdict parse conn_scheme cfg).
-  Notation respond' := (respond parse ipo conn_scheme cfg).
+  Notation respond' := (respond parse ipo conn_scheme cfg app).
 
   Lemma compute_fail r :
-    compute_ov parse ipo conn_scheme cfg tt r (Some OV_FAIL) true = (denied_fat, tt, []).
+    compute_ov parse ipo conn_scheme cfg app tt r (Some OV_FAIL) true = (denied_fat, tt, []).
   Proof.
-    unfold compute_ov. cbn [negb]. rewrite (find_marker_internal OV_FAIL _ O None Hext) by reflexivity. reflexivity.
+    unfold compute_ov. cbn [negb]. rewrite (Hext OV_FAIL r eq_refl). reflexivity.
   Qed.
   Lemma compute_options r :
-    compute_ov parse ipo conn_scheme cfg tt r (Some OV_OPTIONS) true
+    compute_ov parse ipo conn_scheme cfg app tt r (Some OV_OPTIONS) true
     = (options_fat (req_check parse ipo conn_scheme (effective_rules cfg) r), tt, []).
   Proof.
-    unfold compute_ov. cbn [negb]. rewrite (find_marker_internal OV_OPTIONS _ O None Hext) by reflexivity. reflexivity.
+    unfold compute_ov. cbn [negb]. rewrite (Hext OV_OPTIONS r eq_refl). reflexivity.
   Qed.
 
   Lemma serve_core_internal c now r u f lg :
     no_internal c -> starts_with (B "/./") u = true ->
-    compute_ov parse ipo conn_scheme cfg tt r (Some u) true = (f, tt, lg) ->
+    compute_ov parse ipo conn_scheme cfg app tt r (Some u) true = (f, tt, lg) ->
     wants_cache (cc_cache cfg) (rq_method r) f = false ->
-    serve_core parse ipo conn_scheme cfg (c, tt) now true r (Some u)
+    serve_core parse ipo conn_scheme cfg app (c, tt) now true r (Some u)
     = ((c, tt), {| rp_status := f_status f; rp_headers := f_headers f; rp_body := f_body f; rp_identity := f_body f;
                    rp_last_modified := false; rp_from_cache := false |}, lg).
   Proof.
@@ -335,7 +337,7 @@ Section Main.
     intros Ha Hs Hc Hst Hv. unfold respond, serve_ov.
     rewrite (resolve_prime_eq parse conn_scheme cfg Hscheme r0 a Ha Hs). cbn [fst]. rewrite Hs.
     assert (exists u, ov_of parse conn_scheme cfg r0 = Some u /\ starts_with (B "/./") u = true /\
-                      compute_ov parse ipo conn_scheme cfg tt (rw cfg r0) (Some u) true = (denied_fat, tt, [])) as (u & Hu & Hi & Hcomp).
+                      compute_ov parse ipo conn_scheme cfg app tt (rw cfg r0) (Some u) true = (denied_fat, tt, [])) as (u & Hu & Hi & Hcomp).
     { unfold ov_of. rewrite Hv. destruct (pf_shape r0).
       - exists OV_OPTIONS. split; [reflexivity|]. split; [reflexivity|].
         rewrite compute_options, (req_check_rw r0 Hst), (req_check_spec parse conn_scheme cfg Hscheme r0 a Ha), Hv. reflexivity.
@@ -358,7 +360,7 @@ Section Main.
     intros Ha Hs Hc Hst Hpf Ho Hv. unfold respond, serve_ov.
     rewrite (resolve_prime_eq parse conn_scheme cfg Hscheme r0 a Ha Hs). cbn [fst]. rewrite Hs.
     unfold ov_of. rewrite Hpf.
-    assert (compute_ov parse ipo conn_scheme cfg tt (rw cfg r0) (Some OV_OPTIONS) true = (options_fat (Some (ms, hs, t)), tt, [])) as Hcomp.
+    assert (compute_ov parse ipo conn_scheme cfg app tt (rw cfg r0) (Some OV_OPTIONS) true = (options_fat (Some (ms, hs, t)), tt, [])) as Hcomp.
     { rewrite compute_options, (req_check_rw r0 Hst), (req_check_spec parse conn_scheme cfg Hscheme r0 a Ha), Hv. reflexivity. }
     rewrite (serve_core_internal c now (rw cfg r0) OV_OPTIONS _ [] Hc eq_refl Hcomp (wants_cache_options _ _ _)).
     cbn [rp_status rp_headers rp_body f_status f_headers f_body options_fat].
@@ -390,18 +392,18 @@ Section Main.
   Proof. intros Hn. unfold header, strip_origin. cbn [rq_headers]. apply assoc_strip. exact Hn. Qed.
 
   Lemma compute_strip r : starts_with (B "/./") (rq_path r) = false ->
-    compute_ov parse ipo conn_scheme cfg tt (strip_origin r) None true = compute_ov parse ipo conn_scheme cfg tt r None true.
+    compute_ov parse ipo conn_scheme cfg app tt (strip_origin r) None true = compute_ov parse ipo conn_scheme cfg app tt r None true.
   Proof.
     intros Hp. unfold compute_ov. cbn [negb]. change (rq_path (strip_origin r)) with (rq_path r).
-    destruct (find_marker (rq_path r) (cc_handlers cfg) 0 None) as [[i sp]|]; [reflexivity|].
+    rewrite (Hign (rq_path r) r). destruct (app (rq_path r) r) as [[f lg]|]; [reflexivity|].
     destruct (beq (rq_path r) OV_FAIL) eqn:E1; [reflexivity|].
     destruct (beq (rq_path r) OV_OPTIONS) eqn:E2; [|reflexivity].
     apply beq_eq in E2. rewrite E2 in Hp. discriminate.
   Qed.
 
   Lemma serve_core_strip st now r : starts_with (B "/./") (rq_path r) = false ->
-    serve_core parse ipo conn_scheme cfg st now true (strip_origin r) None
-    = serve_core parse ipo conn_scheme cfg st now true r None.
+    serve_core parse ipo conn_scheme cfg app st now true (strip_origin r) None
+    = serve_core parse ipo conn_scheme cfg app st now true r None.
   Proof.
     intros Hp. unfold serve_core. destruct st as [c []].
     rewrite (compute_strip r Hp).
@@ -454,7 +456,7 @@ Section Main.
         by (unfold header, strip_origin; cbn [rq_headers]; apply assoc_strip_origin).
       unfold ov_of, pf_shape, has, req_verdict, cors_spec. rewrite !Hn. rewrite andb_false_r. reflexivity. }
     rewrite Hov, Hov', rw_strip, (serve_core_strip st now (rw cfg r0) (rw_external r0 Hs)).
-    destruct (serve_core parse ipo conn_scheme cfg st now true (rw cfg r0) None) as [[st' rp] lg]. cbn [fst snd].
+    destruct (serve_core parse ipo conn_scheme cfg app st now true (rw cfg r0) None) as [[st' rp] lg]. cbn [fst snd].
     rewrite (package_stable r0 a _ Ha Hst), Ho.
     assert (cors_package parse ipo conn_scheme cfg (strip_origin (rw cfg r0)) (rp_headers rp) = rp_headers rp) as Hpk.
     { unfold cors_package. destruct (cc_with_cors cfg); [|reflexivity].
@@ -517,8 +519,9 @@ Section Invariant.
   Variable ipo : bytes -> option bytes -> option bytes -> bool.
   Variable conn_scheme : bytes.
   Variable cfg : ccfg.
+  Variable app : app_handlers.
 
-  Lemma compute_not_ok r ov f lg : compute_ov parse ipo conn_scheme cfg tt r ov false = (f, tt, lg) ->
+  Lemma compute_not_ok r ov f lg : compute_ov parse ipo conn_scheme cfg app tt r ov false = (f, tt, lg) ->
     wants_cache (cc_cache cfg) (rq_method r) f = false.
   Proof.
     unfold compute_ov. cbn [negb]. intros H. inversion H; subst.
@@ -527,10 +530,10 @@ Section Invariant.
 
   Lemma miss_no_internal c1 now r ok ov :
     no_internal c1 -> (ok = true -> starts_with (B "/./") (rq_path r) = false) ->
-    no_internal (fst (fst (fst (miss unit (fun hs r ok => compute_ov parse ipo conn_scheme cfg hs r ov ok) (cc_cache cfg) true
+    no_internal (fst (fst (fst (miss unit (fun hs r ok => compute_ov parse ipo conn_scheme cfg app hs r ov ok) (cc_cache cfg) true
                                  no_negotiate no_vary_tuple no_vary_header c1 tt now r ok)))).
   Proof.
-    intros Hc Hp. unfold miss. destruct (compute_ov parse ipo conn_scheme cfg tt r ov ok) as [[f []] lg] eqn:Hcomp.
+    intros Hc Hp. unfold miss. destruct (compute_ov parse ipo conn_scheme cfg app tt r ov ok) as [[f []] lg] eqn:Hcomp.
     destruct (may_store (cc_cache cfg) (rq_method r) f) eqn:M; cbn [fst]; [|exact Hc].
     apply no_internal_insert; [|exact Hc]. apply insert_key_external.
     destruct ok; [apply Hp; reflexivity|].
@@ -539,10 +542,10 @@ Section Invariant.
 
   Lemma serve_core_no_internal c now ok r ov :
     no_internal c -> (ok = true -> starts_with (B "/./") (rq_path r) = false) ->
-    no_internal (fst (fst (fst (serve_core parse ipo conn_scheme cfg (c, tt) now ok r ov)))).
+    no_internal (fst (fst (fst (serve_core parse ipo conn_scheme cfg app (c, tt) now ok r ov)))).
   Proof.
     intros Hc Hp. unfold serve_core. destruct (negb (cc_cache cfg)).
-    - destruct (compute_ov parse ipo conn_scheme cfg tt r ov ok) as [[f hs'] lg]. exact Hc.
+    - destruct (compute_ov parse ipo conn_scheme cfg app tt r ov ok) as [[f hs'] lg]. exact Hc.
     - destruct (lookup (key_request r ov) c now) as [[k found] c1] eqn:L.
       destruct (lookup_inv _ _ _ _ _ _ L Hc) as [Hc1 Hk].
       destruct found as [e|]; [|apply miss_no_internal; assumption].
@@ -550,7 +553,7 @@ Section Invariant.
       destruct (match match header (B "if-modified-since") r with Some v => parse_ims_fix v | None => None end with
                 | Some t => ims_fresh t (e_created e) | None => false end); [exact Hc1|].
       destruct (v_find (no_vary_tuple r) (e_vars e)); [exact Hc1|].
-      destruct (compute_ov parse ipo conn_scheme cfg tt r ov ok) as [[f hs'] lg]. cbn [fst].
+      destruct (compute_ov parse ipo conn_scheme cfg app tt r ov ok) as [[f hs'] lg]. cbn [fst].
       apply no_internal_insert; [apply (Hk e eq_refl)|exact Hc1].
   Qed.
 
@@ -591,12 +594,12 @@ Section Invariant.
   Qed.
 
   Lemma respond_no_internal c now r0 :
-    no_internal c -> no_internal (fst (fst (respond parse ipo conn_scheme cfg (c, tt) now r0))).
+    no_internal c -> no_internal (fst (fst (respond parse ipo conn_scheme cfg app (c, tt) now r0))).
   Proof.
     intros Hc. unfold respond, serve_ov.
     destruct (resolve_prime parse ipo conn_scheme cfg (prime_list cfg) r0 None) as [r ov] eqn:R.
     pose proof (serve_core_no_internal c now (sanitize_ok_fix r0) r ov Hc) as H.
-    destruct (serve_core parse ipo conn_scheme cfg (c, tt) now (sanitize_ok_fix r0) r ov) as [[st' rp] lg]. cbn [fst] in *.
+    destruct (serve_core parse ipo conn_scheme cfg app (c, tt) now (sanitize_ok_fix r0) r ov) as [[st' rp] lg]. cbn [fst] in *.
     apply H. intros Hs. pose proof (resolve_prime_fst r0 Hs) as Hf. rewrite R in Hf. cbn [fst] in Hf. subst r.
     unfold rw. destruct (cc_new cfg).
     - apply uri_redirect_external, sanitize_path, Hs.
@@ -605,12 +608,12 @@ Section Invariant.
 
   (** every cache state reachable by a history of requests (at any times) and clears keeps the invariant *)
   Lemma reachable_no_internal ops st now :
-    no_internal (fst st) -> no_internal (fst (run_conn_state parse ipo conn_scheme cfg st now ops)).
+    no_internal (fst st) -> no_internal (fst (run_conn_state parse ipo conn_scheme cfg app st now ops)).
   Proof.
     revert st now. induction ops as [|[[r|] dt] rest IH]; intros [c []] now Hc; cbn [run_conn_state].
     - exact Hc.
     - apply IH. pose proof (respond_no_internal c (now + dt) r Hc) as H.
-      destruct (respond parse ipo conn_scheme cfg (c, tt) (now + dt) r) as [[c' []] w]. exact H.
+      destruct (respond parse ipo conn_scheme cfg app (c, tt) (now + dt) r) as [[c' []] w]. exact H.
     - apply IH. cbn [fst snd]. intros k e [].
   Qed.
 End Invariant.
@@ -627,94 +630,100 @@ Proof.
   destruct (cc_with_cors cfg); [rewrite (rs_get_resolve hist (cc_rules cfg) (rq_path r) Hr)|]; reflexivity.
 Qed.
 
-Definition decision_statement : Prop :=
-  forall (parse : bytes -> option uparts) (conn_scheme : bytes) (cfg : ccfg) (c : cache) (now : N) (r0 : request) (a o : bytes),
-    mem_byte c_colon conn_scheme = false -> handlers_external cfg -> no_internal c ->
+Lemma decision_proof :
+  forall (parse : bytes -> option uparts) (conn_scheme : bytes) (cfg : ccfg) (app : app_handlers) (c : cache) (now : N) (r0 : request) (a o : bytes),
+    mem_byte c_colon conn_scheme = false -> app_external app -> app_ignores_origin app -> no_internal c ->
     header H_HOST r0 = Some a -> header H_ORIGIN r0 = Some o -> sanitize_ok_fix r0 = true -> stable cfg r0 ->
     (req_verdict parse conn_scheme cfg r0 = VRefuse ->
-       respond parse is_part_of_origin conn_scheme cfg (c, tt) now r0
+       respond parse is_part_of_origin conn_scheme cfg app (c, tt) now r0
        = ((c, tt), mkWire 403 [] (if rq_method r0 =? M_HEAD then [] else DENIED) []))
     /\ (req_verdict parse conn_scheme cfg r0 <> VRefuse -> pf_shape r0 = false ->
-       respond parse is_part_of_origin conn_scheme cfg (c, tt) now r0
-       = (fst (respond parse is_part_of_origin conn_scheme cfg (c, tt) now (strip_origin r0)),
-          let w := snd (respond parse is_part_of_origin conn_scheme cfg (c, tt) now (strip_origin r0)) in
+       respond parse is_part_of_origin conn_scheme cfg app (c, tt) now r0
+       = (fst (respond parse is_part_of_origin conn_scheme cfg app (c, tt) now (strip_origin r0)),
+          let w := snd (respond parse is_part_of_origin conn_scheme cfg app (c, tt) now (strip_origin r0)) in
           mkWire (w_status w) (if cc_with_cors cfg then set_header H_ACAO o (w_headers w) else w_headers w) (w_body w) (w_log w))).
-Lemma decision_proof : decision_statement.
 Proof.
-  intros parse sch cfg c now r0 a o Hsch Hext Hc Ha Ho Hs Hst. split.
-  - intros Hv. apply (refused_reply parse sch cfg Hsch Hext c now r0 a Ha Hs Hc Hst Hv).
-  - intros Hv Hpf. apply (allowed_reply parse sch cfg Hsch (c, tt) now r0 a o Ha Hs Hst Ho Hv Hpf).
+  intros parse sch cfg app c now r0 a o Hsch Hext Hign Hc Ha Ho Hs Hst. split.
+  - intros Hv. apply (refused_reply parse sch cfg app Hsch Hext c now r0 a Ha Hs Hc Hst Hv).
+  - intros Hv Hpf. apply (allowed_reply parse sch cfg app Hsch Hign (c, tt) now r0 a o Ha Hs Hst Ho Hv Hpf).
 Qed.
 
 Lemma cache_independent_proof :
-  forall (parse : bytes -> option uparts) (conn_scheme : bytes) (cfg : ccfg) (r0 : request) (a : bytes),
-    mem_byte c_colon conn_scheme = false -> handlers_external cfg ->
+  forall (parse : bytes -> option uparts) (conn_scheme : bytes) (cfg : ccfg) (app : app_handlers) (r0 : request) (a : bytes),
+    mem_byte c_colon conn_scheme = false -> app_external app ->
     header H_HOST r0 = Some a -> sanitize_ok_fix r0 = true -> stable cfg r0 ->
     (* (a) the invariant holds in every state a history of requests and clears can reach *)
-    (forall ops now, no_internal (fst (run_conn_state parse is_part_of_origin conn_scheme cfg ([], tt) now ops)))
+    (forall ops now, no_internal (fst (run_conn_state parse is_part_of_origin conn_scheme cfg app ([], tt) now ops)))
     (* (b) a refused request and a preflight get the same reply and leave the cache alone in every such state *)
     /\ (req_verdict parse conn_scheme cfg r0 = VRefuse \/ (pf_shape r0 = true) ->
         forall c1 c2 now1 now2, no_internal c1 -> no_internal c2 ->
-          snd (respond parse is_part_of_origin conn_scheme cfg (c1, tt) now1 r0)
-          = snd (respond parse is_part_of_origin conn_scheme cfg (c2, tt) now2 r0)
-          /\ fst (respond parse is_part_of_origin conn_scheme cfg (c1, tt) now1 r0) = (c1, tt)).
+          snd (respond parse is_part_of_origin conn_scheme cfg app (c1, tt) now1 r0)
+          = snd (respond parse is_part_of_origin conn_scheme cfg app (c2, tt) now2 r0)
+          /\ fst (respond parse is_part_of_origin conn_scheme cfg app (c1, tt) now1 r0) = (c1, tt)).
 Proof.
-  intros parse sch cfg r0 a Hsch Hext Ha Hs Hst. split.
+  intros parse sch cfg app r0 a Hsch Hext Ha Hs Hst. split.
   - intros ops now. apply reachable_no_internal. intros k e [].
   - intros Hcase c1 c2 now1 now2 Hc1 Hc2.
     destruct (req_verdict parse sch cfg r0) eqn:Hv.
     + destruct Hcase as [Hcase|Hpf]; [discriminate|].
       destruct (header H_ORIGIN r0) as [o|] eqn:Ho.
       2:{ unfold pf_shape, has in Hpf. rewrite Ho in Hpf. rewrite andb_false_r in Hpf. discriminate. }
-      rewrite (preflight_reply parse sch cfg Hsch Hext c1 now1 r0 a o None [] 604800000 Ha Hs Hc1 Hst Hpf Ho) by (rewrite Hv; reflexivity).
-      rewrite (preflight_reply parse sch cfg Hsch Hext c2 now2 r0 a o None [] 604800000 Ha Hs Hc2 Hst Hpf Ho) by (rewrite Hv; reflexivity).
+      rewrite (preflight_reply parse sch cfg app Hsch Hext c1 now1 r0 a o None [] 604800000 Ha Hs Hc1 Hst Hpf Ho) by (rewrite Hv; reflexivity).
+      rewrite (preflight_reply parse sch cfg app Hsch Hext c2 now2 r0 a o None [] 604800000 Ha Hs Hc2 Hst Hpf Ho) by (rewrite Hv; reflexivity).
       split; reflexivity.
     + destruct Hcase as [Hcase|Hpf]; [discriminate|].
       destruct (header H_ORIGIN r0) as [o|] eqn:Ho.
       2:{ unfold pf_shape, has in Hpf. rewrite Ho in Hpf. rewrite andb_false_r in Hpf. discriminate. }
       destruct g as [[ms hs] t].
-      rewrite (preflight_reply parse sch cfg Hsch Hext c1 now1 r0 a o ms hs t Ha Hs Hc1 Hst Hpf Ho) by (rewrite Hv; reflexivity).
-      rewrite (preflight_reply parse sch cfg Hsch Hext c2 now2 r0 a o ms hs t Ha Hs Hc2 Hst Hpf Ho) by (rewrite Hv; reflexivity).
+      rewrite (preflight_reply parse sch cfg app Hsch Hext c1 now1 r0 a o ms hs t Ha Hs Hc1 Hst Hpf Ho) by (rewrite Hv; reflexivity).
+      rewrite (preflight_reply parse sch cfg app Hsch Hext c2 now2 r0 a o ms hs t Ha Hs Hc2 Hst Hpf Ho) by (rewrite Hv; reflexivity).
       split; reflexivity.
-    + rewrite (refused_reply parse sch cfg Hsch Hext c1 now1 r0 a Ha Hs Hc1 Hst Hv).
-      rewrite (refused_reply parse sch cfg Hsch Hext c2 now2 r0 a Ha Hs Hc2 Hst Hv). split; reflexivity.
+    + rewrite (refused_reply parse sch cfg app Hsch Hext c1 now1 r0 a Ha Hs Hc1 Hst Hv).
+      rewrite (refused_reply parse sch cfg app Hsch Hext c2 now2 r0 a Ha Hs Hc2 Hst Hv). split; reflexivity.
 Qed.
 
 Lemma same_origin_proof :
-  forall (parse : bytes -> option uparts) (conn_scheme : bytes) (cfg : ccfg) (st : state unit) (now : N) (r0 : request) (a o : bytes),
-    mem_byte c_colon conn_scheme = false ->
+  forall (parse : bytes -> option uparts) (conn_scheme : bytes) (cfg : ccfg) (app : app_handlers) (st : state unit) (now : N) (r0 : request) (a o : bytes),
+    mem_byte c_colon conn_scheme = false -> app_ignores_origin app ->
     header H_HOST r0 = Some a -> header H_ORIGIN r0 = Some o -> sanitize_ok_fix r0 = true -> stable cfg r0 ->
     req_verdict parse conn_scheme cfg r0 = VSame -> pf_shape r0 = false ->
-    respond parse is_part_of_origin conn_scheme cfg st now r0
-    = (fst (respond parse is_part_of_origin conn_scheme cfg st now (strip_origin r0)),
-       let w := snd (respond parse is_part_of_origin conn_scheme cfg st now (strip_origin r0)) in
+    respond parse is_part_of_origin conn_scheme cfg app st now r0
+    = (fst (respond parse is_part_of_origin conn_scheme cfg app st now (strip_origin r0)),
+       let w := snd (respond parse is_part_of_origin conn_scheme cfg app st now (strip_origin r0)) in
        mkWire (w_status w) (if cc_with_cors cfg then set_header H_ACAO o (w_headers w) else w_headers w) (w_body w) (w_log w)).
 Proof.
-  intros parse sch cfg st now r0 a o Hsch Ha Ho Hs Hst Hv Hpf.
-  apply (allowed_reply parse sch cfg Hsch st now r0 a o Ha Hs Hst Ho); [rewrite Hv; discriminate|exact Hpf].
+  intros parse sch cfg app st now r0 a o Hsch Hign Ha Ho Hs Hst Hv Hpf.
+  apply (allowed_reply parse sch cfg app Hsch Hign st now r0 a o Ha Hs Hst Ho); [rewrite Hv; discriminate|exact Hpf].
 Qed.
 
 (** the same along every history: whatever requests (same-origin, allowed, refused, unsanitary, at any
     times) and cache clears came before, from the empty cache *)
 Lemma decision_histories_proof :
-  forall (parse : bytes -> option uparts) (conn_scheme : bytes) (cfg : ccfg) (ops : list (cop * N)) (t0 now : N) (r0 : request) (a o : bytes),
-    mem_byte c_colon conn_scheme = false -> handlers_external cfg ->
+  forall (parse : bytes -> option uparts) (conn_scheme : bytes) (cfg : ccfg) (app : app_handlers) (ops : list (cop * N)) (t0 now : N) (r0 : request) (a o : bytes),
+    mem_byte c_colon conn_scheme = false -> app_external app -> app_ignores_origin app ->
     header H_HOST r0 = Some a -> header H_ORIGIN r0 = Some o -> sanitize_ok_fix r0 = true -> stable cfg r0 ->
-    let st := run_conn_state parse is_part_of_origin conn_scheme cfg ([], tt) t0 ops in
+    let st := run_conn_state parse is_part_of_origin conn_scheme cfg app ([], tt) t0 ops in
     (req_verdict parse conn_scheme cfg r0 = VRefuse ->
-       respond parse is_part_of_origin conn_scheme cfg st now r0
+       respond parse is_part_of_origin conn_scheme cfg app st now r0
        = (st, mkWire 403 [] (if rq_method r0 =? M_HEAD then [] else DENIED) []))
     /\ (req_verdict parse conn_scheme cfg r0 <> VRefuse -> pf_shape r0 = false ->
-       respond parse is_part_of_origin conn_scheme cfg st now r0
-       = (fst (respond parse is_part_of_origin conn_scheme cfg st now (strip_origin r0)),
-          let w := snd (respond parse is_part_of_origin conn_scheme cfg st now (strip_origin r0)) in
+       respond parse is_part_of_origin conn_scheme cfg app st now r0
+       = (fst (respond parse is_part_of_origin conn_scheme cfg app st now (strip_origin r0)),
+          let w := snd (respond parse is_part_of_origin conn_scheme cfg app st now (strip_origin r0)) in
           mkWire (w_status w) (if cc_with_cors cfg then set_header H_ACAO o (w_headers w) else w_headers w) (w_body w) (w_log w))).
 Proof.
-  intros parse sch cfg ops t0 now r0 a o Hsch Hext Ha Ho Hs Hst st.
+  intros parse sch cfg app ops t0 now r0 a o Hsch Hext Hign Ha Ho Hs Hst st.
   assert (no_internal (fst st)) as Hc by (apply reachable_no_internal; intros k e []).
   destruct st as [c []]. cbn [fst] in Hc.
-  apply (decision_proof parse sch cfg c now r0 a o Hsch Hext Hc Ha Ho Hs Hst).
+  apply (decision_proof parse sch cfg app c now r0 a o Hsch Hext Hign Hc Ha Ho Hs Hst).
 Qed.
+
+(** the marker handlers of the correspondence are such an application *)
+Lemma marker_app_external hs :
+  (forall p sp, In (p, sp) hs -> starts_with (B "/./") p = false) -> app_external (marker_app hs).
+Proof. intros H key r Hk. unfold marker_app. rewrite (find_marker_internal key hs O None H Hk). reflexivity. Qed.
+Lemma marker_app_ignores_origin hs : app_ignores_origin (marker_app hs).
+Proof. intros key r. reflexivity. Qed.
 
 (** ---- witnesses ---- *)
 Definition ex_al (origins : list aorigin) (all : bool) : allow_list :=
@@ -729,7 +738,7 @@ Definition ex_req (m : N) (p : bytes) (hs : list (bytes * bytes)) : request := m
 Lemma known_class_witness :
   let r := ex_req M_GET (B "/api/") [(H_ORIGIN, B "https://evil.example")] in
   req_verdict parse_uri CONN_SCHEME ex_cfg r = VRefuse /\ ~ stable ex_cfg r /\
-  snd (respond parse_uri is_part_of_origin CONN_SCHEME ex_cfg ([], tt) 0 r)
+  snd (respond parse_uri is_part_of_origin CONN_SCHEME ex_cfg (marker_app (cc_handlers ex_cfg)) ([], tt) 0 r)
   = mkWire 403 [(H_ACAO, B "https://evil.example")] DENIED [].
 Proof.
   cbv zeta. split; [vm_compute; reflexivity|]. split; [|vm_compute; reflexivity].
@@ -740,7 +749,7 @@ Qed.
 Lemma null_origin_v0_witness :
   let r := ex_req M_GET (B "/api/x") [(H_ORIGIN, B "null")] in
   req_verdict parse_uri CONN_SCHEME ex_cfg r = VRefuse /\ stable ex_cfg r /\
-  snd (respond parse_uri is_part_of_origin_v0 CONN_SCHEME ex_cfg ([], tt) 0 r)
+  snd (respond parse_uri is_part_of_origin_v0 CONN_SCHEME ex_cfg (marker_app (cc_handlers ex_cfg)) ([], tt) 0 r)
   = mkWire 200 [(H_ACAO, B "null")] (B "h0:/api/x") [B "h0"].
 Proof.
   cbv zeta. split; [vm_compute; reflexivity|]. split; vm_compute; reflexivity.
